@@ -56,6 +56,7 @@ const (
 type Sched struct {
 	mu      sync.Mutex
 	tasks   []*Task
+	live    []*Task // tasks that are not done (what the scheduling loop looks at)
 	byGoid  map[uint64]*Task
 	Ch      *Chooser
 	arrived chan struct{}
@@ -181,6 +182,7 @@ func (s *Sched) Spawn(name string, f func()) *Task {
 	}
 	t.ID = len(s.tasks)
 	s.tasks = append(s.tasks, t)
+	s.live = append(s.live, t)
 	if s.Strat == StratPCT {
 		t.prio = 1 + s.Ch.Int("sched", 1<<16)
 	}
@@ -459,7 +461,20 @@ func (s *Sched) Run(cond func() bool, maxSteps int, horizon time.Duration) Statu
 		s.mu.Lock()
 		var en []*Task
 		alive := 0
-		for _, t := range s.tasks {
+		// finished tasks are dropped from the live list (a long run spawns one
+		// short-lived helper per transmit call)
+		k := 0
+		for _, t := range s.live {
+			if t.state != stDone {
+				s.live[k] = t
+				k++
+			}
+		}
+		for i := k; i < len(s.live); i++ {
+			s.live[i] = nil
+		}
+		s.live = s.live[:k]
+		for _, t := range s.live {
 			if t.state == stDone {
 				continue
 			}
